@@ -562,12 +562,11 @@ Section Main.
   Qed.
 
   Lemma case_fornum n0 vl e1 e2 e3 b l :
-    has_func e3 = false -> core_e e1 -> core_e e2 -> core_e e3 -> core_b b -> Pe e1 -> Pe e2 -> Pe e3 -> Pb b ->
+    core_e e1 -> core_e e2 -> core_e e3 -> core_b b -> Pe e1 -> Pe e2 -> Pe e3 -> Pb b ->
     Ps (SForNum n0 vl e1 e2 e3 b l).
   Proof.
-    intros Hhf Hc1 Hc2 Hc3 Hcb Hp1 Hp2 Hp3 Hpb flv slv reg en o HM Hin Hat Hn.
+    intros Hc1 Hc2 Hc3 Hcb Hp1 Hp2 Hp3 Hpb flv slv reg en o HM Hin Hat Hn.
     cbn [m2_stat sk_stat fst snd b_stat] in *.
-    rewrite Hhf in Hin. rewrite (proj1 has_func_sk e3 Hc3 Hhf). cbn [app].
     set (M1 := m2_exp e1) in *. set (M2 := m2_exp e2) in *. set (M3 := m2_exp e3) in *. set (MB := m2_block b) in *.
     set (HDR := id_marks vl ++ M1 ++ M2 ++ M3).
     assert (EM : id_marks vl ++ M1 ++ M2 ++ M3 ++ MB ++ [MClose l] = (HDR ++ MB) ++ [MClose l])
@@ -578,25 +577,25 @@ Section Main.
     destruct (MG_app W _ _ HMh0) as (HMi & HMr1 & _). destruct (MG_app W _ _ HMr1) as (HM1 & HMr2 & _).
     destruct (MG_app W _ _ HMr2) as (HM2 & HM3 & _).
     pose proof (proj1 sk_marks e1 Hc1) as Hs1. pose proof (proj1 sk_marks e2 Hc2) as Hs2. fold M1 in Hs1. fold M2 in Hs2.
+    pose proof (proj1 sk_marks e3 Hc3) as Hs3. fold M3 in Hs3.
+    assert (Hs23 : Forall (scm (M2 ++ M3)) (sk_exp e2 ++ sk_exp e3)).
+    { apply Forall_app. split; [eapply scm_mono; [apply incl_appl; apply incl_refl|exact Hs2]|
+                                eapply scm_mono; [apply incl_appr; apply incl_refl|exact Hs3]]. }
     set (v := mkV n0 vl RNone false).
-    rewrite (app_assoc (sk_exp e1) (sk_exp e2)).
+    rewrite (app_assoc (sk_exp e2) (sk_exp e3)), (app_assoc (sk_exp e1) (sk_exp e2 ++ sk_exp e3)).
     apply in_app_or in Hin. destruct Hin as [Hin|[Hin|Hin]].
     - (* the bounds *)
       apply in_tag_if in Hin. destruct Hin as (o0 & Hin0 & Hrt & Hcnd).
       assert (Hat0 : at_cur o0) by (destruct Hrt as (Hl & _); unfold PositionBindPos.at_cur in *; rewrite <- Hl; exact Hat).
       assert (Hn0 : s_name o0 = n) by (destruct Hrt as (_ & Hnm & _); rewrite <- Hnm; exact Hn).
-      assert (Hcc0 : CC HDR (sk_exp e1 ++ sk_exp e2) [] en o0).
+      assert (Hcc0 : CC HDR (sk_exp e1 ++ sk_exp e2 ++ sk_exp e3) [] en o0).
       { unfold HDR. apply (cc_right (id_marks vl) _ [] _ [] en o0 HMh0); [|exact Hat0|constructor].
         apply in_app_or in Hin0. destruct Hin0 as [Hin0|Hin0]; [|apply in_app_or in Hin0; destruct Hin0 as [Hin0|Hin0]].
-        - apply cc_left; [exact HMr1|exact (Hp1 flv slv reg en o0 HM1 Hin0 Hat0 Hn0)|exact Hat0|].
-          eapply scm_mono; [apply incl_appl; apply incl_refl|exact Hs2].
+        - apply cc_left; [exact HMr1|exact (Hp1 flv slv reg en o0 HM1 Hin0 Hat0 Hn0)|exact Hat0|exact Hs23].
         - apply cc_right; [exact HMr1| |exact Hat0|exact Hs1].
-          apply (cc_seq _ (sk_exp e2 ++ [])); [apply app_nil_r|].
-          apply cc_left; [exact HMr2|exact (Hp2 flv slv reg en o0 HM2 Hin0 Hat0 Hn0)|exact Hat0|constructor].
+          apply cc_left; [exact HMr2|exact (Hp2 flv slv reg en o0 HM2 Hin0 Hat0 Hn0)|exact Hat0|exact Hs3].
         - apply cc_right; [exact HMr1| |exact Hat0|exact Hs1].
-          apply (cc_seq _ (sk_exp e2 ++ [])); [apply app_nil_r|].
-          apply cc_right; [exact HMr2| |exact Hat0|exact Hs2].
-          pose proof (Hp3 flv slv reg en o0 HM3 Hin0 Hat0 Hn0) as H3. rewrite (proj1 has_func_sk e3 Hc3 Hhf) in H3. exact H3. }
+          apply cc_right; [exact HMr2|exact (Hp3 flv slv reg en o0 HM3 Hin0 Hat0 Hn0)|exact Hat0|exact Hs2]. }
       apply (for_header_cc HDR MB l _ b [v] en o0 o (fun o => outer_use en o && beq_bytes (s_name o) n0) Hcb eq_refl HM Hcc0 Hrt Hcnd Hat Hn).
       intros o1 Hou Hc Hn1. rewrite Hou in Hc. cbn [andb] in Hc. constructor; [|constructor].
       apply nohit_name. cbn [v_name]. rewrite beq_bytes_sym, <- Hn1. exact Hc.
@@ -614,7 +613,7 @@ Section Main.
         * exact (proj2 (proj2 (MG_app W _ _ HMh0))).
         * right. left. reflexivity.
         * apply Forall_app. split; [eapply scm_mono; [apply incl_appl; apply incl_refl|exact Hs1]|].
-          eapply scm_mono; [|exact Hs2]. apply incl_appr. apply incl_appl. apply incl_refl.
+          eapply scm_mono; [|exact Hs23]. apply incl_appr. apply incl_refl.
       + rewrite find_app, (find_none_all _ _ Hlater). cbn [find].
         assert (Hhit : hit v = true).
         { unfold PositionBindLook.hit, var_hit. change (v_name v) with n0. rewrite Hn, beq_bytes_refl'. cbn [andb].
@@ -623,9 +622,10 @@ Section Main.
         rewrite Hhit. reflexivity.
     - (* the body *)
       apply (for_body_cc HDR b l _ [v] flv (slv + 1) en o Hcb Hpb HM); auto.
-      + apply Forall_app. split; unfold HDR.
+      + apply Forall_app. split; [|apply Forall_app; split]; unfold HDR.
         * eapply scm_mono; [|exact Hs1]. apply incl_appr. apply incl_appl. apply incl_refl.
         * eapply scm_mono; [|exact Hs2]. apply incl_appr. apply incl_appr. apply incl_appl. apply incl_refl.
+        * eapply scm_mono; [|exact Hs3]. apply incl_appr. apply incl_appr. apply incl_appr. apply incl_refl.
       + constructor; [|constructor]. split; [|exact I]. cbn [v_loc v].
         eapply idm_mono; [|apply id_marks_idm]. unfold HDR. apply incl_appl. apply incl_refl.
   Qed.
@@ -1096,7 +1096,7 @@ Section Main.
     - intros es bs l Hlen Hce Hcb IHe IHb. apply case_if; assumption.
     - intros e b l Hce Hcb IHe IHb. apply case_while; assumption.
     - intros b e l Hcb Hce IHb IHe. apply case_repeat; assumption.
-    - intros n0 vl e1 e2 e3 b l _ Hhf Hc1 Hc2 Hc3 Hcb IH1 IH2 IH3 IHb. apply case_fornum; assumption.
+    - intros n0 vl e1 e2 e3 b l _ Hc1 Hc2 Hc3 Hcb IH1 IH2 IH3 IHb. apply case_fornum; assumption.
     - intros ns ls es b l _ Hce Hcb IHe IHb. apply case_forin; assumption.
     - (* assignment *)
       intros vars es l Hv Hce IHe.
